@@ -248,7 +248,7 @@ func (h *privH) step(x int) bool {
 		h.tr.take()
 		v.Start()
 		if v.Snapshot().Status == "Allocating" {
-			if e := v.PumpEx(3*time.Second, torrent.ClsAlloc); e.Code != torrent.EvAllocDone {
+			if e := v.PumpEx(10*time.Second, torrent.ClsAlloc); e.Code != torrent.EvAllocDone {
 				h.note["allocfail"]++
 			}
 		}
@@ -272,7 +272,7 @@ func (h *privH) step(x int) bool {
 			return false
 		}
 		v.Stop()
-		if e := v.PumpEx(3*time.Second, torrent.ClsStopped); e.Code != torrent.EvAnnouncersStopped {
+		if e := v.PumpEx(10*time.Second, torrent.ClsStopped); e.Code != torrent.EvAnnouncersStopped {
 			h.note["stopfail"]++
 		}
 		h.in = append(h.in, 2)
@@ -301,10 +301,10 @@ func (h *privH) step(x int) bool {
 		h.obs = append(h.obs, vpriv)
 	case x < 46: // extension handshake
 		p := h.anyOpen()
-		if p < 0 || h.shaken[p] {
+		if p < 0 || h.shaken[p] && r.Intn(3) > 0 { // a second handshake is ignored by the client
 			return false
 		}
-		pex := r.Intn(4) > 0
+		pex := r.Intn(3) > 0
 		m := map[string]any{"ut_metadata": utMetaID}
 		if pex {
 			m["ut_pex"] = 4
@@ -314,7 +314,7 @@ func (h *privH) step(x int) bool {
 		if h.peers[p].Send(20, append([]byte{0}, b...)) != nil {
 			return false
 		}
-		if e := v.PumpEx(2*time.Second, torrent.ClsMsg); e.Code == torrent.EvNone {
+		if e := v.PumpEx(10*time.Second, torrent.ClsMsg); e.Code == torrent.EvNone {
 			h.note["msgtimeout"]++
 			return false
 		}
@@ -340,13 +340,13 @@ func (h *privH) step(x int) bool {
 		if h.peers[p].Send(20, append([]byte{2}, b...)) != nil { // 2 = the client's id for ut_pex
 			return false
 		}
-		if e := v.PumpEx(2*time.Second, torrent.ClsMsg); e.Code == torrent.EvNone {
+		if e := v.PumpEx(10*time.Second, torrent.ClsMsg); e.Code == torrent.EvNone {
 			h.note["msgtimeout"]++
 			return false
 		}
 		h.in = append(h.in, 5, int64(p), int64(n))
 		h.state()
-	case x < 82: // addresses from the DHT, a tracker, the user
+	case x < 79: // addresses from the DHT, a tracker, the user
 		src := []int64{6, 6, 7, 8}[r.Intn(4)]
 		n := r.Intn(4)
 		var b []byte
@@ -357,7 +357,14 @@ func (h *privH) step(x int) bool {
 		v.NewAddrs(compactToAddrs(b), ps)
 		h.in = append(h.in, src, int64(n))
 		h.state()
-	case x < 86: // port message
+	case x < 85: // the user asks for an announce
+		if !h.running() {
+			return false
+		}
+		v.AnnounceCmd()
+		h.in = append(h.in, 13)
+		h.state()
+	case x < 88: // port message
 		p := h.anyOpen()
 		if p < 0 {
 			return false
@@ -365,7 +372,7 @@ func (h *privH) step(x int) bool {
 		if h.peers[p].Send(9, []byte{0x1f, 0x90}) != nil {
 			return false
 		}
-		if e := v.PumpEx(2*time.Second, torrent.ClsMsg); e.Code == torrent.EvNone {
+		if e := v.PumpEx(10*time.Second, torrent.ClsMsg); e.Code == torrent.EvNone {
 			h.note["msgtimeout"]++
 			return false
 		}
@@ -395,18 +402,18 @@ func (h *privH) step(x int) bool {
 		if h.peers[p].Send(20, pl) != nil {
 			return false
 		}
-		if e := v.PumpEx(2*time.Second, torrent.ClsMsg); e.Code == torrent.EvNone {
+		if e := v.PumpEx(10*time.Second, torrent.ClsMsg); e.Code == torrent.EvNone {
 			h.note["msgtimeout"]++
 			return false
 		}
 		h.metaReq[p] = false
 		switch v.Snapshot().Status {
 		case "Allocating":
-			if e := v.PumpEx(3*time.Second, torrent.ClsAlloc); e.Code != torrent.EvAllocDone {
+			if e := v.PumpEx(10*time.Second, torrent.ClsAlloc); e.Code != torrent.EvAllocDone {
 				h.note["allocfail"]++
 			}
 		case "Stopping":
-			if e := v.PumpEx(3*time.Second, torrent.ClsStopped); e.Code != torrent.EvAnnouncersStopped {
+			if e := v.PumpEx(10*time.Second, torrent.ClsStopped); e.Code != torrent.EvAnnouncersStopped {
 				h.note["stopfail"]++
 			}
 		}
@@ -431,7 +438,7 @@ func (h *privH) step(x int) bool {
 			if h.peers[p].Send(20, append([]byte{2}, b...)) != nil {
 				return false
 			}
-			if e := v.PumpEx(2*time.Second, torrent.ClsMsg); e.Code == torrent.EvNone {
+			if e := v.PumpEx(10*time.Second, torrent.ClsMsg); e.Code == torrent.EvNone {
 				h.note["msgtimeout"]++
 				return false
 			}
@@ -456,6 +463,16 @@ func (h *privH) step(x int) bool {
 		h.obs = append(h.obs, b2i(err == nil))
 	}
 	return true
+}
+
+// freeUDPPort asks the kernel for a UDP port that is free now.
+func freeUDPPort() uint16 {
+	c, err := net.ListenPacket("udp4", "127.0.0.1:0")
+	if err != nil {
+		return 0
+	}
+	defer c.Close()
+	return uint16(c.LocalAddr().(*net.UDPAddr).Port)
 }
 
 func genPrivate(r *rand.Rand, tier string) Case {
@@ -497,7 +514,7 @@ func genPrivate(r *rand.Rand, tier string) Case {
 	tune := func(c *torrent.Config) {
 		c.DHTEnabled = dht
 		c.DHTHost = "127.0.0.1"
-		c.DHTPort = uint16(20000 + r.Intn(40000))
+		c.DHTPort = freeUDPPort()
 		c.DHTBootstrapNodes = nil
 		c.PEXEnabled = pex
 		c.MaxPeerDial = 0
@@ -519,6 +536,9 @@ func genPrivate(r *rand.Rand, tier string) Case {
 		opts.TorrentFile = torrent.BuildTorrentFileWithTrackers(info, nil, [][]string{{turl}})
 	}
 	v, err := torrent.NewVLoop(opts)
+	for try := 0; err != nil && try < 5; try++ { // the DHT port may have been taken in the meantime
+		v, err = torrent.NewVLoop(opts)
+	}
 	if err != nil {
 		return Case{In: []int64{0}, Obs: []int64{-711}, Note: err.Error()}
 	}
@@ -530,6 +550,9 @@ func genPrivate(r *rand.Rand, tier string) Case {
 			return Case{In: []int64{0}, Obs: []int64{-712}}
 		}
 		v, err = torrent.OpenVLoop(db, torrent.NewVStorage(), tune)
+		for try := 0; err != nil && try < 5; try++ {
+			v, err = torrent.OpenVLoop(db, torrent.NewVStorage(), tune)
+		}
 		if err != nil {
 			return Case{In: []int64{0}, Obs: []int64{-713}, Note: err.Error()}
 		}
@@ -570,6 +593,9 @@ func genPrivate(r *rand.Rand, tier string) Case {
 	note := fmt.Sprintf("reopened=%v ", reopened)
 	for k, n := range h.note {
 		note += fmt.Sprintf("%s=%d ", k, n)
+	}
+	if v.BarrierTimeouts > 0 {
+		note += fmt.Sprintf(" barriertimeout=%d", v.BarrierTimeouts)
 	}
 	return Case{In: h.in, Obs: h.obs, Note: note}
 }
